@@ -548,7 +548,7 @@ fn kernel_sweep(ctx: &Ctx) {
 
 fn run(ctx: &Ctx) {
     kernel_sweep(ctx);
-    let n = ctx.share(ctx.tier.pick(3_000_000, 30_000_000));
+    let n = ctx.share(ctx.tier.pick(3_000_000, 150_000_000));
     ctx.run_cases("scan", n, case_strategy(), check);
 }
 
